@@ -36,6 +36,11 @@ pub mod iface {
         fn poke(&self, ctx: ExecCtx, n: u32) -> Result<Response, Self::Error>;
         #[sv::msg(exec)]
         fn poke2(&self, ctx: ExecCtx, a: String, b: String) -> Result<Response, Self::Error>;
+        // names that do not survive snake -> UpperCamel -> snake: the wire name is serde's (`stage2_poke`, `peek_a_b`)
+        #[sv::msg(exec)]
+        fn stage_2_poke(&self, ctx: ExecCtx, n: u32) -> Result<Response, Self::Error>;
+        #[sv::msg(query)]
+        fn peek_a_b(&self, ctx: QueryCtx, idx: u32) -> Result<Echo, Self::Error>;
         #[sv::msg(query)]
         fn peek(&self, ctx: QueryCtx) -> Result<Echo, Self::Error>;
         #[sv::msg(query)]
@@ -118,6 +123,12 @@ pub mod contract {
         fn peek(&self, _ctx: QueryCtx) -> StdResult<Echo> {
             Ok(Echo { handler: "peek".into(), args: vec![] })
         }
+        fn stage_2_poke(&self, ctx: ExecCtx, n: u32) -> StdResult<Response> {
+            echo("stage_2_poke", vec![js(&n)], &ctx)
+        }
+        fn peek_a_b(&self, _ctx: QueryCtx, idx: u32) -> StdResult<Echo> {
+            Ok(Echo { handler: "peek_a_b".into(), args: vec![js(&idx)] })
+        }
         fn peek_at(&self, _ctx: QueryCtx, idx: u32, tag: String) -> StdResult<Echo> {
             Ok(Echo { handler: "peek_at".into(), args: vec![js(&idx), js(&tag)] })
         }
@@ -183,6 +194,7 @@ fn remote_exec(v: &Value) -> Value {
             match method {
                 "poke" => b.poke(n(0) as u32).map(|r| r.build()).map_err(|e| e.to_string()),
                 "poke2" => b.poke_2(s(0), s(1)).map(|r| r.build()).map_err(|e| e.to_string()),
+                "stage_2_poke" => b.stage_2_poke(n(0) as u32).map(|r| r.build()).map_err(|e| e.to_string()),
                 _ => Err("no such method".into()),
             }
         }
@@ -196,6 +208,7 @@ fn remote_exec(v: &Value) -> Value {
             match method {
                 "poke" => b.poke(n(0) as u32).map(|r| r.build()).map_err(|e| e.to_string()),
                 "poke2" => b.poke_2(s(0), s(1)).map(|r| r.build()).map_err(|e| e.to_string()),
+                "stage_2_poke" => b.stage_2_poke(n(0) as u32).map(|r| r.build()).map_err(|e| e.to_string()),
                 _ => Err("no such method".into()),
             }
         }
@@ -255,6 +268,7 @@ fn remote_query(v: &Value) -> Value {
             match method {
                 "peek" => bq.peek().map_err(|e| e.to_string()),
                 "peek_at" => bq.peek_at(n(0), args[1].as_str().unwrap_or("").to_string()).map_err(|e| e.to_string()),
+                "peek_a_b" => bq.peek_ab(n(0)).map_err(|e| e.to_string()),
                 _ => Err("no such method".into()),
             }
         }
@@ -265,6 +279,7 @@ fn remote_query(v: &Value) -> Value {
             match method {
                 "peek" => bq.peek().map_err(|e| e.to_string()),
                 "peek_at" => bq.peek_at(n(0), args[1].as_str().unwrap_or("").to_string()).map_err(|e| e.to_string()),
+                "peek_a_b" => bq.peek_ab(n(0)).map_err(|e| e.to_string()),
                 _ => Err("no such method".into()),
             }
         }
